@@ -122,21 +122,30 @@ def sort_of(ty):
 def field_sort(ty): return ArraySort(I, sort_of(ty))
 
 class Obligation:
-    def __init__(s, name, prem, goal, kind='assert'): s.name, s.prem, s.goal, s.kind = name, prem, goal, kind
+    def __init__(s, name, prem, goal, kind='assert', focus=None, nohint=None): s.name, s.prem, s.goal, s.kind, s.focus, s.nohint = name, prem, goal, kind, focus, nohint
+
+_hq_cache = {}
+def has_quant(t):
+    k = t.get_id()
+    if k in _hq_cache: return _hq_cache[k]
+    if is_quantifier(t): r = True
+    elif is_app(t): r = any(has_quant(c) for c in t.children())
+    else: r = False
+    _hq_cache[k] = r; return r
 
 class Unsupported(Exception): pass
 class State:
     def __init__(s, env, heap, pc, ret=None, defs=None):
         s.env, s.heap, s.pc, s.ret = dict(env), heap.copy(), list(pc), ret
         s.defs = list(defs or []); s.exc = None
-        s.old = None; s.loop_pre = None; s.old_env = None
+        s.old = None; s.loop_pre = None; s.old_env = None; s.hints = []
     def fork(s):
-        n = State(s.env, s.heap, s.pc, s.ret, s.defs); n.old, n.loop_pre, n.old_env, n.exc = s.old, s.loop_pre, s.old_env, s.exc; return n
+        n = State(s.env, s.heap, s.pc, s.ret, s.defs); n.old, n.loop_pre, n.old_env, n.exc = s.old, s.loop_pre, s.old_env, s.exc; n.hints = list(s.hints); return n
 
 
 # ---------------------------------------------------------------- executor
 class Contract:
-    def __init__(s): s.requires, s.ensures, s.invariants, s.modifies, s.raises, s.ghost_exit = [], [], {}, None, [], []; s.asserts = {}; s.before_call = {}; s.after_assign = {}
+    def __init__(s): s.requires, s.ensures, s.invariants, s.modifies, s.raises, s.ghost_exit = [], [], {}, None, [], []; s.asserts = {}; s.before_call = {}; s.after_assign = {}; s.after_stmt = {}
     # requires/ensures: list of ast expr; invariants: loop ordinal -> list of ast expr; modifies: list of field keys or None(=anything)
 
 class Exec:
@@ -193,7 +202,15 @@ class Exec:
     def oblige(s, st, name, goal, kind='assert'):
         if getattr(s, 'specmode', False): return
         if s.aspect is not None and kind in ('safety', 'frame', 'raise', 'raises', 'assert'): return
-        s.obls.append(Obligation(f'{s.cur}#{name}', list(st.pc) + list(st.defs) + list(s.guard), goal, kind))
+        if kind in ('post', 'call-pre', 'invariant', 'ghost', 'raises') and is_and(goal) and goal.num_args() > 1:
+            for i_, g_ in enumerate(goal.children()): s.oblige(st, f'{name}/c{i_}', g_, kind)
+            return
+        focus = nohint = None
+        if st.hints and kind != 'smoke':
+            hs = {h.get_id() for h in st.hints}
+            focus = [p_ for p_ in st.pc if p_.get_id() in hs or not has_quant(p_)] + list(st.defs) + list(s.guard)
+            nohint = [p_ for p_ in st.pc if p_.get_id() not in hs] + list(st.defs) + list(s.guard)
+        s.obls.append(Obligation(f'{s.cur}#{name}', list(st.pc) + list(st.defs) + list(s.guard), goal, kind, focus, nohint))
     def truth(s, sv):
         if getattr(sv, 'truth', None) is not None: return sv.truth
         if sv.ty == BOOL: return sv.t
@@ -276,6 +293,11 @@ class Exec:
         vals = [s.ev(st, e.left)] + [s.ev(st, c) for c in e.comparators]
         return SV(And([s.cmp(st, op, vals[i], vals[i + 1]) for i, op in enumerate(e.ops)]), BOOL)
     def ev_BoolOp(s, st, e):
+        if getattr(s, 'specmode', False):
+            vs = [s.ev(st, v) for v in e.values]
+            if all(v.t.sort() == B for v in vs if not isinstance(v.t, tuple)):
+                ts = [s.truth(v) for v in vs]
+                return SV(And(ts) if isinstance(e.op, ast.And) else Or(ts), BOOL)
         # value semantics with short-circuit guards for obligations
         first = s.ev(st, e.values[0]); acc_t, acc_truth, ty = first.t, s.truth(first), first.ty
         for nxt in e.values[1:]:
@@ -397,6 +419,7 @@ class Exec:
                 if not e.args: return s.new_list(st, ListT(INT), IntVal(0), lambda k: IntVal(0))
                 v = s.ev(st, e.args[0]); arr = s.lelem(st.heap, v)
                 return s.new_list(st, v.ty, s.llen(st.heap, v), lambda k: Select(arr, k))
+            if n == 'cls' and isinstance(st.env.get('cls'), str): return s.construct(st, st.env['cls'], e)
             if n in s.p.classes: return s.construct(st, n, e)
             if n in s.p.funcs: return s.call(st, s.p.funcs[n], [s.ev(st, a) for a in e.args], name=n)
             if n in s.spec.builtins: return s.spec.builtins[n](s, st, [s.ev(st, a) for a in e.args])
@@ -442,9 +465,16 @@ class Exec:
     def construct(s, st, cls, e):
         ci = s.p.classes[cls]
         obj = s.alloc(st, cls.lower()); st.defs.append(s.typ(obj) == s.class_id(cls))
-        args = [s.ev(st, a) for a in e.args]; kw = {k.arg: s.ev(st, k.value) for k in e.keywords}
+        names = [f_ for f_ in ci.fields if not f_.startswith('g_')]
+        def ev_arg(a, fname):
+            if isinstance(a, ast.List) and not a.elts and fname in ci.fields and ci.fields[fname].kind == 'list':
+                return s.new_list(st, ci.fields[fname], IntVal(0), lambda k: IntVal(0))
+            return s.ev(st, a)
         if ci.dataclass and '__init__' not in ci.methods:
-            names = list(ci.fields)
+            args = [ev_arg(a, names[i] if i < len(names) else None) for i, a in enumerate(e.args)]; kw = {k.arg: ev_arg(k.value, k.arg) for k in e.keywords}
+        else:
+            args = [s.ev(st, a) for a in e.args]; kw = {k.arg: s.ev(st, k.value) for k in e.keywords}
+        if ci.dataclass and '__init__' not in ci.methods:
             for i, f in enumerate(names):
                 if i < len(args): v = args[i]
                 elif f in kw: v = kw[f]
@@ -539,13 +569,17 @@ class Exec:
             for rs in req:
                 for r in rs: s.oblige_force(st, f'lemma-pre[{name} {where}: {ast.unparse(r)[:40]}]', s.spec_bool(st, r, env), 'lemma-pre')
             for es in ens:
-                for x in es: st.pc.append(Implies(cond, s.spec_bool(st, x, env)))
+                for x in es:
+                    g_ = Implies(cond, s.spec_bool(st, x, env)); st.pc.append(g_); st.hints.append(g_)
         finally: s.guard = saved_guard
     def ghost_action(s, st, args):
         kind = args[0].value
         if kind == 'assert':
-            g = s.spec_bool(st, args[1]); s.oblige_force(st, f'ghost-assert[{ast.unparse(args[1])[:50]}]', g); st.pc.append(g); return
-        slf = st.env['self']; fld = args[1].value
+            g = s.spec_bool(st, args[1]); s.oblige_force(st, f'ghost-assert[{ast.unparse(args[1])[:140]}]', g); st.pc.append(g); st.hints.append(g); return
+        if kind in ('seto', 'setinto'):
+            slf = s.spec_ev(st, args[1]); args = [args[0]] + list(args[2:]); kind = 'set' if kind == 'seto' else 'setint'
+        else: slf = st.env['self']
+        fld = args[1].value
         if kind == 'setint':
             v = s.spec_ev(st, args[2]); s.write(st, slf.t, slf.ty.arg, fld, v.t); return
         lam = args[2]; kname = lam.args.args[0].arg
@@ -702,7 +736,7 @@ class Exec:
     def call_contract(s, st, q, c, env, rty):
         st2 = st.fork(); st2.env = env
         for i, r in enumerate(c.requires):
-            if s.proves(r): s.oblige(st, f'call-pre[{q}:{ast.unparse(r)[:60]}]', s.spec_bool(st2, r), 'call-pre')
+            if s.proves(r): s.oblige(st, f'call-pre[{q}:{ast.unparse(r)[:140]}]', s.spec_bool(st2, r), 'call-pre')
         s.touch_fields(st, c)
         if c.raises and getattr(s, 'cur_ctx', None) is not None:
             xs = st.fork(); xs.exc = q; s.cur_ctx.raises.append((xs, ('callee', q, [ast.unparse(a) for a in c.raises[0]])))
@@ -725,7 +759,11 @@ class Exec:
         s.cur_ctx = ctx
         m = getattr(s, 'st_' + type(head).__name__, None)
         if m is None: raise Unsupported(f'stmt {type(head).__name__}: {ast.unparse(head)[:80]}')
+        cq = s.spec.contracts.get(ctx.q)
+        acts = cq.after_stmt.get(ast.unparse(head), []) if (cq is not None and cq.after_stmt and not isinstance(head, (ast.If, ast.For, ast.While))) else []
         for o in m(st, head, ctx):
+            for act in acts:
+                if s.uses(act[0]): s.ghost_action(o, act)
             top = getattr(ctx, 'topbody', None)
             if top is not None:
                 for idx, b in enumerate(top):
@@ -736,8 +774,8 @@ class Exec:
                             if isinstance(e, ast.Call) and getattr(e.func, 'id', None) in ('use', 'use_if'):
                                 s.use_lemma(o, e, f'after-stmt{idx}'); continue
                             g = s.spec_bool(o, e)
-                            if s.proves(e): s.oblige(o, f'ghost-assert-after-stmt{idx}[{ast.unparse(e)[:50]}]', g, 'ghost')
-                            o.pc.append(g)
+                            if s.proves(e): s.oblige(o, f'ghost-assert-after-stmt{idx}[{ast.unparse(e)[:140]}]', g, 'ghost')
+                            o.pc.append(g); o.hints.append(g)
             yield from s.run(o, rest, ctx)
     def st_Pass(s, st, n, ctx): yield st
     def st_Expr(s, st, n, ctx):
@@ -768,7 +806,10 @@ class Exec:
         if n.value is None: yield st; return
         s.assign(st, n.target, s.ev(st, n.value)); yield st
     def st_Assign(s, st, n, ctx):
-        v = s.ev(st, n.value)
+        lt = getattr(s.spec.contracts.get(ctx.q), 'local_types', {}) if s.spec.contracts.get(ctx.q) else {}
+        if isinstance(n.value, ast.List) and not n.value.elts and isinstance(n.targets[0], ast.Name) and n.targets[0].id in lt:
+            v = s.new_list(st, lt[n.targets[0].id], IntVal(0), lambda k: IntVal(0))
+        else: v = s.ev(st, n.value)
         for t in n.targets: s.assign(st, t, v)
         curc = s.spec.contracts.get(ctx.q)
         if curc is not None:
@@ -845,6 +886,9 @@ class Exec:
                 nm = f.attr if isinstance(f, ast.Attribute) else (f.id if isinstance(f, ast.Name) else None)
                 if nm in s.p.classes: heap.add(('fresh', nm))
                 cands = [(c, m) for c in s.p.classes for m in s.p.classes[c].methods.get(nm, [])] + ([(None, s.p.funcs[nm])] if nm in s.p.funcs else [])
+                if isinstance(f, ast.Attribute) and isinstance(f.value, ast.Name) and f.value.id in s.p.classes:
+                    cands = [(c, m) for c, m in cands if c in s.p.mro(f.value.id)]
+                elif isinstance(f, ast.Name): cands = [(c, m) for c, m in cands if c is None] if nm in s.p.funcs else cands
                 for c, m in cands:
                     q = s.qual(c, m.name)
                     if q in seen: continue
@@ -852,13 +896,13 @@ class Exec:
                     ct = s.spec.contracts.get(q)
                     if ct is not None:
                         if ct.modifies is None: heap.add('*')
-                        else: heap |= {s.parse_mod(m_)[0] for m_ in ct.modifies}
+                        else: heap |= {(('freshpat', s.parse_mod(m_)[0]) if s.parse_mod(m_)[1] == 'fresh' else s.parse_mod(m_)[0]) for m_ in ct.modifies}
                     else:
                         l2, h2 = s.modset(m.body, c, seen, top=False); heap |= h2
         return loc, heap
     def expand_mods(s, heap_pats, st, loc=(), probe=None):
         """-> list of (key-pattern, receiver term or None)"""
-        written_fields = {(p_[0] if isinstance(p_, tuple) else p_).split('.')[-1] for p_ in heap_pats if not (isinstance(p_, tuple) and p_[0] == 'fresh')}
+        written_fields = {(p_[0] if isinstance(p_, tuple) else p_).split('.')[-1] for p_ in heap_pats if not (isinstance(p_, tuple) and p_[0] in ('fresh', 'freshpat'))}
         def stable(src):
             t = ast.parse(src.replace('$out', 'S__out'), mode='eval').body
             for x in ast.walk(t):
@@ -867,7 +911,10 @@ class Exec:
                 if isinstance(x, ast.Attribute) and x is not t and x.attr in written_fields: return False
             return True
         out = []
+        plain = {(p_[0] if isinstance(p_, tuple) else p_) for p_ in heap_pats if not (isinstance(p_, tuple) and p_[0] in ('fresh', 'freshpat'))}
         for p_ in sorted(heap_pats, key=str):
+            if isinstance(p_, tuple) and p_[0] == 'freshpat':
+                out.append((p_[1], 'FRESH')); continue
             if isinstance(p_, tuple) and p_[0] == 'fresh':
                 for f in s.p.classes[p_[1]].fields: out.append((f'{p_[1]}.{f}', 'FRESH'))
                 continue
@@ -898,6 +945,17 @@ class Exec:
         invs = (s.spec.contracts.get(ctx.q).invariants.get(ordinal, []) if s.spec.contracts.get(ctx.q) else [])
         N, bind, cond = setup(st)
         loc, heap = s.modset(n.body, None)
+        cq = s.spec.contracts.get(ctx.q)
+        if cq is not None:
+            texts = {ast.unparse(x) for b_ in n.body for x in ast.walk(b_) if isinstance(x, ast.stmt)}
+            tgts = {ast.unparse(t_) for b_ in n.body for x in ast.walk(b_) if isinstance(x, ast.Assign) for t_ in x.targets}
+            called = {(x.func.attr if isinstance(x.func, ast.Attribute) else getattr(x.func, 'id', None)) for b_ in n.body for x in ast.walk(b_) if isinstance(x, ast.Call)}
+            acts = [a_ for k_, v_ in cq.after_stmt.items() if k_ in texts for a_ in v_] + [a_ for k_, v_ in cq.after_assign.items() if k_ in tgts for a_ in v_] \
+                 + [a_ for k_, v_ in cq.before_call.items() if k_.split('.')[-1] in called for a_ in v_]
+            for a_ in acts:
+                kind_ = a_[0].value
+                if kind_ in ('set', 'setint'): heap.add(('*.' + a_[1].value, 'self'))
+                elif kind_ in ('seto', 'setinto'): heap.add(('*.' + a_[2].value, ast.unparse(a_[1])))
         probe = st.fork()
         try:
             if N is not None: bind(probe, Int('probe!K'))
@@ -909,7 +967,7 @@ class Exec:
             sx.loop_pre = pre
             extra = {'K': SV(c, INT)} if c is not None else {}
             for i, e in enumerate(invs):
-                if s.proves(e): s.oblige(sx, f'loop{ordinal}-inv-{label}[{ast.unparse(e)[:50]}]@{n.lineno}', s.spec_bool(sx, e, extra), 'invariant')
+                if s.proves(e): s.oblige(sx, f'loop{ordinal}-inv-{label}[{ast.unparse(e)[:140]}]@{n.lineno}', s.spec_bool(sx, e, extra), 'invariant')
         # entry
         st0 = st.fork(); 
         if N is not None: bind(st0, IntVal(0), entry=True)
@@ -1011,6 +1069,10 @@ class Spec:
                         elif kind == 'ghost': c.ghost_exit.append(call.args)
                         elif kind == 'after_assign': c.after_assign.setdefault(call.args[0].value, []).append(call.args[1:])
                         elif kind == 'before_call': c.before_call.setdefault(call.args[0].value, []).append(call.args[1:])
+                        elif kind == 'types':
+                            c.local_types = getattr(c, 'local_types', {})
+                            for k in call.keywords: c.local_types[k.arg] = parse_ann(k.value, {})
+                        elif kind == 'after_stmt': c.after_stmt.setdefault(ast.unparse(ast.parse(call.args[0].value).body[0]), []).append(call.args[1:])
                         elif kind == 'ghost_assert': c.asserts.setdefault(call.args[0].value, []).extend(call.args[1:])
                         elif kind == 'raises': c.raises.append(call.args)
                     s.contracts[d.args[0].value] = c
@@ -1045,11 +1107,11 @@ def generate(ex, owner, name, kind=None):
         ty = Ref(owner) if (i == 0 and owner and 'staticmethod' not in decs) else parse_ann(a.annotation, tv)
         if a.arg in getattr(c, 'param_types', {}): ty = c.param_types[a.arg]
         if ty is None: raise Unsupported(f'parameter {a.arg} of {q} has no type')
-        v = Int(a.arg)
+        v = Int('v_' + a.arg)
         if ty.kind == 'tuple':
-            sv = SV(tuple(SV(Int(f'{a.arg}_{j}'), t) for j, t in enumerate(ty.arg)), ty)
+            sv = SV(tuple(SV(Int(f'v_{a.arg}_{j}'), t) for j, t in enumerate(ty.arg)), ty)
         else:
-            sv = SV(v if ty != BOOL else Bool(a.arg), ty)
+            sv = SV(v if ty != BOOL else Bool('v_' + a.arg), ty)
             if ty.kind in ('ref', 'list'): st.defs.append(And(v >= 0, v < st.heap.alloc))
             if i == 0 and owner and 'staticmethod' not in decs: st.defs.append(v > 0)
             if ty.kind == 'list': st.defs.append(v > 0); sv = ex.list_sv(st, v, ty)
@@ -1078,11 +1140,18 @@ def generate(ex, owner, name, kind=None):
         if is_gen: v = o.env['$out']; v = ex.list_sv(o, v.t, v.ty)
         o2 = o.fork(); o2.env = dict(o.env, result=v); o2.old = st.old; o2.old_env = st.old_env
         for gargs in c.ghost_exit:
-            fld = gargs[0].value; lam = gargs[1]; kname = lam.args.args[0].arg
+            if not ex.uses(gargs[0]): continue
+            fld = gargs[0].value; lam = gargs[1]
+            if ':' in fld:
+                osrc, fld = fld.split(':'); slf = ex.spec_ev(o2, ast.parse(osrc, mode='eval').body)
+            else: slf = o2.old_env['self']
+            if not isinstance(lam, ast.Lambda):
+                ex.write(o2, slf.t, slf.ty.arg, fld, ex.spec_ev(o2, lam).t); continue
+            kname = lam.args.args[0].arg
             kv = Int(f'{kname}!g{next(pyvc_fresh)}'); o3 = o2.fork(); o3.env = dict(o2.env, **{kname: SV(kv, INT)}); o3.old, o3.old_env = o2.old, o2.old_env
             body = ex.spec_ev(o3, lam.body); o2.defs = o3.defs
             na = fresh('ghost_' + fld, IA); o2.defs.append(ForAll([kv], Select(na, kv) == body.t))
-            slf = o2.old_env['self']; ex.write(o2, slf.t, slf.ty.arg, fld, na)
+            ex.write(o2, slf.t, slf.ty.arg, fld, na)
         if ex.aspect is not None:      # clauses of the default aspect are proved in the default pass and may be assumed here
             for e in c.ensures:
                 if ex.uses(e) and not ex.proves(e): o2.pc.append(ex.spec_bool(o2, e))
@@ -1103,8 +1172,15 @@ def generate(ex, owner, name, kind=None):
         o2 = o.fork(); o2.old = st.old; o2.old_env = st.old_env
         for rargs in c.raises:
             for pat in [a.value for a in rargs[1:] if isinstance(a, ast.Constant)]:
-                cl, f = pat.split('.'); key = ex.field_key(cl, f); ty = p.field_ty(cl, f)
                 obj = Int('o!u')
+                if pat.startswith('list['):
+                    tag = ex.parse_mod(pat)[0]
+                    for sub in ('len', 'elem'):
+                        nt, ot = o2.heap.m.get((tag, sub)), st.old.m.get((tag, sub))
+                        if nt is None or ot is None or nt.eq(ot): continue
+                        ex.oblige(o2, f'raises-unchanged[{pat}.{sub}] when {where}#{nraise}', ForAll([obj], Implies(And(0 < obj, obj < st.old.alloc), Select(nt, obj) == Select(ot, obj))), 'raises')
+                    continue
+                cl, f = pat.split('.'); key = ex.field_key(cl, f); ty = p.field_ty(cl, f)
                 ex.oblige(o2, f'raises-unchanged[{pat}] when {where}#{nraise}', ForAll([obj], Implies(And(0 < obj, obj < st.old.alloc), Select(ex.hget(o2.heap, key, ty), obj) == Select(ex.hget(st.old, key, ty), obj))), 'raises')
             for kw_ in getattr(c, 'raises_kw', []):
                 for e in kw_.get('ensures', []): ex.oblige(o2, f'raises-post[{ast.unparse(e)[:80]}] when {where}#{nraise}', ex.spec_bool(o2, e), 'raises')
@@ -1114,8 +1190,8 @@ def generate(ex, owner, name, kind=None):
 
 class SpecBinding(Exception): pass
 
-def obligation_smt2(ex, ob):
-    sl = Solver(); sl.add(ex.axioms); sl.add(ob.prem); sl.add(Not(ob.goal))
+def obligation_smt2(ex, ob, focus=False):
+    sl = Solver(); sl.add(ex.axioms); sl.add({True: ob.focus, 'nohint': ob.nohint}.get(focus, ob.prem)); sl.add(Not(ob.goal))
     return '(set-logic ALL)\n' + sl.to_smt2()
 
 def lemma_obligations(ex, name):
